@@ -67,6 +67,10 @@ pub fn sizes(ctx: &Ctx, scale: usize) -> Sizes {
 /// universe of terms for the reducer properties: named + enumerated + random
 pub fn universe(ctx: &mut Ctx, sz: &Sizes, ud: bool) -> Vec<Term> {
     let mut v = named_terms();
+    // redexes whose bound variable occurs at two different (deep) depths with an open argument
+    for (f, a) in deep_substitution_family().into_iter().step_by(7) {
+        v.push(app(f, a));
+    }
     let mut e = enum_upto(sz.enum_size, sz.enum_free);
     if !ud {
         e.retain(|t| !free_vars(t).1);
@@ -387,6 +391,7 @@ pub fn c02(ctx: &mut Ctx) {
             pairs.push((p.0.clone(), p.1.clone()));
         }
     }
+    pairs.extend(deep_substitution_family());
     for (f, a) in &pairs {
         let line = format!("apply {} {}", s(f), s(a));
         let r = ctx.op(&line);
@@ -522,6 +527,41 @@ fn long_run_checks(ctx: &mut Ctx, t: &Term, o: Order, cap: usize) {
     }
 }
 
+/// (abstraction, argument) pairs in which the bound variable occurs at TWO different depths, shallow and deep (1 … 65 binders
+/// below the removed one, in both visiting orders), and the argument is open with binders of its own: anything that remembers a
+/// shifted copy of the argument between occurrences, or treats large depths specially, shows here
+pub fn deep_substitution_family() -> Vec<(Term, Term)> {
+    let depths = [0usize, 1, 2, 3, 4, 5, 7, 8, 14, 15, 16, 17, 18, 31, 32, 33, 64, 65];
+    let args: Vec<Term> = vec![
+        Var(1),
+        Var(3),
+        abs(app!(Var(1), Var(2), Var(3))),            // λ.1 2 3: bound, and two free variables
+        app(Var(2), abs(abs(app(Var(4), Var(1))))),
+        abs(abs(app(Var(3), app(Var(1), Var(5))))),
+    ];
+    let mut out = Vec::new();
+    for (i, &d1) in depths.iter().enumerate() {
+        for &d2 in depths.iter().skip(i % 3).step_by(3) {
+            if d1 == d2 {
+                continue;
+            }
+            // λ. (λ^d1. x) (λ^d2. x y) where x is the variable of the outer λ and y a free variable of the body
+            let occ = |d: usize, extra: bool| -> Term {
+                let mut e = if extra { app(Var(d + 1), Var(d + 3)) } else { Var(d + 1) };
+                for _ in 0..d {
+                    e = abs(e);
+                }
+                e
+            };
+            let body = app!(occ(d1, false), occ(d2, true), Var(1));
+            for a in &args {
+                out.push((abs(body.clone()), a.clone()));
+            }
+        }
+    }
+    out
+}
+
 // ------------------------------------------------------------------------------------------ C04
 pub fn c04(ctx: &mut Ctx) {
     let sz = sizes(ctx, 1);
@@ -530,6 +570,48 @@ pub fn c04(ctx: &mut Ctx) {
     for t in long_programs().iter() {
         for &o in ORDERS.iter() {
             long_run_checks(ctx, t, o, 3000);
+        }
+    }
+    // VERY long runs: a Church numeral applied to I I needs n + 2 contractions under every order.  Limits just below, at and
+    // just above powers of two (256 … 2048) and splits across them: anything that processes a run in blocks, or packs limit and
+    // count into fewer bits, shows here and nowhere below
+    {
+        let n = 2500usize;
+        let t = app!(n.into_church(), abs(Var(1)), abs(Var(1)));
+        for &o in ORDERS.iter() {
+            let tr = stepwise(ctx, &t, o, n + 10, 100000);
+            if tr.broken || !tr.reached_nf {
+                continue;
+            }
+            let k = tr.terms.len() - 1;
+            for l in [255usize, 256, 257, 511, 512, 513, 1000, 1023, 1024, 1025, 2047, 2048, 2049, k - 1, k, k + 1, 4096, 0] {
+                let line = reduce_op(o, l, &t);
+                let r = ctx.op(&line);
+                ctx.nontrivial(&line);
+                let e = if l == 0 { k } else { l.min(k) };
+                if parse_reduce(&r) != Some((e, tr.terms[e].clone())) {
+                    ctx.fail("a very long limited run is not the prefix of the step-wise run (term or count): limit at or around a power of two", &[line]);
+                }
+                ctx.count("very_long_limits");
+            }
+            for ls in [vec![400usize, 400, 224], vec![1000, 24], vec![1024, 1024], vec![1500, 548], vec![512, 512, 512, 512, 512]] {
+                let mut line = format!("hist {}", ls.len());
+                for l in &ls {
+                    line.push_str(&format!(" {} {}", order_name(o), l));
+                }
+                line.push(' ');
+                line.push_str(&s(&t));
+                let r = ctx.op(&line);
+                let toks: Vec<&str> = r.split_ascii_whitespace().collect();
+                let total: usize = ls.iter().sum::<usize>().min(k);
+                let got: usize = toks.iter().take(ls.len()).filter_map(|x| x.parse::<usize>().ok()).sum();
+                let mut it = toks.iter().skip(ls.len()).copied();
+                let u = codec::dec(&mut it);
+                if got != total || u.as_ref() != Some(&tr.terms[total]) {
+                    ctx.fail("a sequence of long limited runs differs from one run with the summed limit", &[line]);
+                }
+                ctx.count("very_long_splits");
+            }
         }
     }
     for t in &uni {
